@@ -165,6 +165,62 @@ def unindent (isSpace : Char → Bool) (b : Buf) (fromRow toRow : Int) (count : 
   let b1 : Buf := { text := newText, cur := rowStart newText row }
   setCursor b1 ((b1.cur : Int) + col - ic.length)
 
+
+/-! ### readline named commands built on the edit API
+    (src/prompt_toolkit/key_binding/bindings/named_commands.py) -/
+
+/-- `backward-delete-char` with numeric argument `arg` (negative: delete forward). -/
+def backwardDeleteChar (b : Buf) (arg : Int) : Buf × Text :=
+  if arg < 0 then delete b (-arg).toNat else deleteBefore b arg.toNat
+
+/-- `delete-char` with numeric argument `arg` (negative: delete backward; after the fix). -/
+def deleteChar (b : Buf) (arg : Int) : Buf × Text :=
+  if arg < 0 then deleteBefore b (-arg).toNat else delete b arg.toNat
+
+/-- `self-insert`: `insert_text(event.data * event.arg)` (`str * n` is empty for `n ≤ 0`). -/
+def selfInsert (b : Buf) (data : Text) (arg : Int) : Buf :=
+  insertText b (repeatText data arg.toNat) false true
+
+/-- `transpose-chars` -/
+def transposeChars (b : Buf) : Buf :=
+  if b.cur = 0 then b
+  else if b.cur = b.text.length ∨ b.text[b.cur]? = some '\n' then swapBeforeCursor b
+  else
+    -- cursor_position += get_cursor_right_position()  (stays on the line; here text[cur] ≠ '\n')
+    swapBeforeCursor (setCursor b ((b.cur : Int) + 1))
+
+def isWordChar (c : Char) : Bool := c.isAlphanum || c = '_'
+
+/-- first match of `([a-zA-Z0-9_]+|[^a-zA-Z0-9_\s]+)` in `t`: `some end` (index after the run) -/
+def firstWordEnd (reSpace : Char → Bool) (t : Text) : Option Nat :=
+  let skipped := t.takeWhile reSpace
+  match t.dropWhile reSpace with
+  | [] => none
+  | c :: rest =>
+    let run := if isWordChar c then rest.takeWhile isWordChar
+               else rest.takeWhile (fun d => !isWordChar d && !reSpace d)
+    some (skipped.length + 1 + run.length)
+
+/-- `Document.find_next_word_ending()` (count = 1, include_current_position = False) -/
+def findNextWordEnding (reSpace : Char → Bool) (b : Buf) : Option Nat :=
+  (firstWordEnd reSpace (b.after.drop 1)).map (· + 1)
+
+/-- one iteration of `_transform_following_words` -/
+def transformWord (reSpace : Char → Bool) (f : Text → Text) (b : Buf) : Option Buf :=
+  match findNextWordEnding reSpace b with
+  | none => none
+  | some pos =>
+    let words := f ((b.text.drop b.cur).take pos)
+    some { text := b.text.take b.cur ++ words ++ b.text.drop (b.cur + pos),
+           cur := b.cur + words.length }
+
+/-- `uppercase-word` / `downcase-word` / `capitalize-word` with numeric argument -/
+def transformWords (reSpace : Char → Bool) (f : Text → Text) : Nat → Buf → Buf
+  | 0, b => b
+  | n + 1, b => match transformWord reSpace f b with
+    | none => b
+    | some b' => transformWords reSpace f n b'
+
 /-- Operations of the edit API (one constructor per public method). -/
 inductive Op
   | insert (data : Text) (overwrite move : Bool)
@@ -181,11 +237,21 @@ inductive Op
   | trRegion (a b : Nat)
   | indent (a b : Int) (n : Nat)
   | unindent (a b : Int) (n : Nat)
+  | backwardDeleteChar (arg : Int)
+  | deleteChar (arg : Int)
+  | selfInsert (data : Text) (arg : Int)
+  | transposeChars
+  | trWords (n : Nat)
 deriving Repr
 
 /-- One step; the `Text` is the method's return value (empty when it returns None).
     An `AssertionError` (transform_region with from ≥ to) leaves the buffer unchanged. -/
 def step (isSpace : Char → Bool) (f : Text → Text) (b : Buf) : Op → Buf × Text
+  | .backwardDeleteChar a => backwardDeleteChar b a
+  | .deleteChar a => deleteChar b a
+  | .selfInsert d a => (selfInsert b d a, [])
+  | .transposeChars => (transposeChars b, [])
+  | .trWords n => (transformWords isSpace f n b, [])
   | .insert d o m => (insertText b d o m, [])
   | .delete n => delete b n
   | .deleteBefore n => deleteBefore b n
